@@ -827,3 +827,81 @@ Print Assumptions C08_tie_fs_comp_read_sim.
 Theorem C08_tie_C08_comp_usable_after_error_src : ltac:(let t := type of SrcTie3CompCarry.C08_comp_usable_after_error_src in exact t).
 Proof. exact SrcTie3CompCarry.C08_comp_usable_after_error_src. Qed.
 Print Assumptions C08_tie_C08_comp_usable_after_error_src.
+
+(* ====================================================================================
+   The BLOCK PARSER, translated (work package blockT): gen/Src3b.v holds ArchiveFileBlock::from and
+   ArchiveFileBlockType::try_from statement by statement (tools/src2v3_block.py); it IS Blocks.parse_block for
+   every stream, state, FILENAME_MAX_SIZE and discriminants.  The level-1 translations of the reader, the
+   repair loop and linear_extract call THIS function: "ArchiveFileBlock::from = Blocks.parse_block" is no
+   longer a trusted link.
+   ==================================================================================== *)
+From MLA Require SrcTie3Block.
+From MLAGen Require Src3b.
+Theorem C08_tie_block_from_src :
+  forall (S : Stream) (FNMAX T_START T_CONTENT T_EOA T_EOF : N) (s : st S),
+    Src3b.ArchiveFileBlock_from S FNMAX T_START T_CONTENT T_EOA T_EOF 636 s =
+    parse_block FNMAX T_START T_CONTENT T_EOA T_EOF S s.
+Proof. exact SrcTie3Block.block_from_src. Qed.
+Print Assumptions C08_tie_block_from_src.
+(* the translated parser has no panic of its own: over a source whose reads do not panic it never panics *)
+Theorem C08_tie_block_from_never_crashes :
+  forall (S : Stream) (FNMAX T_START T_CONTENT T_EOA T_EOF : N), SrcTie3Block.rd_no_crash S ->
+  forall (site : N) (s s' : st S) (c : N),
+    Src3b.ArchiveFileBlock_from S FNMAX T_START T_CONTENT T_EOA T_EOF site s <> (s', Crash c).
+Proof. exact SrcTie3Block.block_from_never_crashes. Qed.
+Print Assumptions C08_tie_block_from_never_crashes.
+(* an announced name longer than FILENAME_MAX_SIZE is refused BEFORE anything of it is read or allocated *)
+Theorem C08_tie_block_from_name_check_before_read :
+  forall (S : Stream) (FNMAX T_START T_CONTENT T_EOA T_EOF : N) (s s1 s2 s3 : st S) (d2 d3 : bytes),
+    rexact S s 1 = (s1, Ok [T_START]) -> rexact S s1 8 = (s2, Ok d2) -> rexact S s2 8 = (s3, Ok d3) ->
+    FNMAX < le_val d3 ->
+    Src3b.ArchiveFileBlock_from S FNMAX T_START T_CONTENT T_EOA T_EOF 636 s = (s3, Err ENameTooLong).
+Proof. exact SrcTie3Block.block_from_name_check_before_read. Qed.
+Print Assumptions C08_tie_block_from_name_check_before_read.
+Check SrcTie3Block.block_from_errors.
+
+(* ====================================================================================
+   The archive HEADER, translated (work package blockT/B): gen/Src3h.v holds ArchiveHeader::from statement by
+   statement and the bincode reader GENERATED from the struct definitions (field order, field types, array
+   lengths of the source); it IS HeaderStream.read_header_s, and C08_header_total holds of it.
+   ==================================================================================== *)
+From MLA Require Import Base Stream Format Archive HeaderStream.
+From MLA Require Bincode SrcTie3Header.
+From MLAGen Require Src3h.
+
+Theorem C08_tie_header_from :
+  forall (S : Stream) (s : st S),
+    Src3h.ArchiveHeader_from S s = read_header_s S Src3h.BINCODE_MAX_DESERIALIZE s.
+Proof. exact SrcTie3Header.header_from_src. Qed.
+Print Assumptions C08_tie_header_from.
+
+(* the generated reader of ArchivePersistentConfig: same value, same source state, same remainder of the limit *)
+Theorem C08_tie_header_config :
+  forall (S : Stream) (s : st S) (lim : N),
+    Src3h.deser_ArchivePersistentConfig S s lim = bc_config S s lim.
+Proof. exact SrcTie3Header.deser_config_src. Qed.
+Print Assumptions C08_tie_header_config.
+
+Theorem C08_tie_header_limit :
+  Src3h.BINCODE_MAX_DESERIALIZE = Src.BINCODE_MAX_DESERIALIZE_prod /\
+  Src3h.BINCODE_MAX_DESERIALIZE = Src.BINCODE_MAX_DESERIALIZE_verif.
+Proof. exact SrcTie3Header.limit_src_consts. Qed.
+
+(* C08_header_total with the TRANSLATED function as subject *)
+Theorem C08_header_total_src :
+  forall (S : Stream) (b : bytes) (R : st S -> N -> Prop) (s0 : st S),
+  Refines S b R -> R s0 0 ->
+  let LIMIT := Src3h.BINCODE_MAX_DESERIALIZE in
+  exists s' r p', Src3h.ArchiveHeader_from S s0 = (s', r) /\ R s' p' /\ p' <= len b /\ p' <= 7 + LIMIT /\
+    match r with
+    | Ok h => p' = 7 + config_size h /\ config_size h <= LIMIT /\
+              (forall eh, h_enc h = Some eh -> 48 * len (eh_keys eh) <= LIMIT) /\
+              read_header LIMIT b = Ok (h, dropN p' b)
+    | Err e => (e = EUnexpectedEof \/ e = EMagic \/ e = EVersion \/ e = EDeser) /\ read_header LIMIT b = Err e
+    | Crash _ => False
+    end.
+Proof. exact SrcTie3Header.C08_header_total_src. Qed.
+Print Assumptions C08_header_total_src.
+
+(* non-vacuity, through the generated code: two wrapped keys read 3 bytes at a time; cut; bad Option tag; … *)
+Check SrcTie3Header.header_src_examples.
